@@ -14,6 +14,8 @@ JOBS = {
     "J3": ["G1 X1 F100", "; only a comment", "G1 X2 ; trailing comment", "G1 (inline) X3"],
     "J2": ["G28", "M105 ; poll"],
     "J4": ["G1 X1", "G1 X2", "; c", "G1 X3", "G1 X4 (last)"],
+    # several layers with a z-hop that returns to an earlier height (lines are appended to an already populated layer)
+    "J8": ["G1 Z0.2", "G1 X1 E1", "G1 Z0.6", "G0 X5", "G1 Z0.2", "G1 X6 E2", "G1 Z0.4", "G1 X7 E3"],
 }
 COMMENT_RE = re.compile(r"\([^()]*\)|;.*")
 
@@ -217,6 +219,10 @@ def plan(tier):
                 items.append(({**base, "line_points": True}, 0, None))
                 if corrupt == (1,):
                     items.append(({**base, "line_points": False}, 1, None))
+        for dialect in ("A", "B"):
+            for corrupt in ((), (5,)):
+                base = {"job": "J8", "dialect": dialect, "greeting": None, "eager": False, "corrupt": corrupt}
+                items.append(({**base, "line_points": True}, 0, None))
         # two jobs back to back on one connection: the second one starts from the state the first one left behind
         for dialect in ("A", "B", "C"):
             for greeting in (None, "start"):
@@ -246,11 +252,11 @@ def plan(tier):
                         items.append(({**base, "line_points": True}, 0, None))
                         if len(corrupt) <= 1 and not eager:
                             items.append(({**base, "line_points": False}, 1, None))
-        for job in ("J3", "J4", "J2"):
+        for job in ("J3", "J4", "J2", "J8"):
             for dialect in ("A", "B", "C"):
                 for greeting in (None, "start"):
                     for eager in (False, True):
-                        for corrupt in fault_patterns(8 if job != "J2" else 4, 3 if job == "J3" else 2):
+                        for corrupt in fault_patterns(8 if job != "J2" else 4, 3 if job == "J3" else (1 if job == "J8" else 2)):
                             base = {"job": job, "dialect": dialect, "greeting": greeting, "eager": eager, "corrupt": corrupt}
                             items.append(({**base, "line_points": True}, 0, None))
                             if len(corrupt) <= 2 and job == "J3":
